@@ -238,7 +238,7 @@ func (o *Obligation) BuildQuery(withModel bool, lite bool) string {
 		}
 		for _, q := range f.Quants {
 			for _, c := range cands {
-				inst := strings.Replace(f.Term, q.Forall, strings.ReplaceAll(q.Inst, q.Var, c), 1)
+				inst := strings.Replace(f.Term, q.Forall, q.instantiate(c, cands, 1), 1)
 				if f.Guard == "true" {
 					fmt.Fprintf(&sb, "(assert %s)\n", inst)
 				} else {
